@@ -153,6 +153,10 @@ def gen_script(rng):
 
 
 CORPUS = [
+    "S B1:e;W1",
+    "S B1:e;B2:e;W1;W2;A;B3:w;HC4;W3",
+    "S B1:w;B2:e;HX1;W1;W2",
+
     "S B0:t;T0;HC1;F0;HX1",                       # late onConnect in the unlock window
     "S B0:w;FENCE;W0;HC1;HX1",                    # late onConnect after a fence wake-up
     "S B0:w;A;B1:w;HC1;W0;HC2;B2:t;T2;HC4;I2;HX1;F2;HX4;HX2;FENCE;W1;B3:w",
